@@ -123,7 +123,18 @@ func MultiMul(ks []*big.Int, ps []Aff) Aff {
 
 // Base is the edwards25519 base point: y = 4/5, x even... x is the "positive"
 // (even) root per RFC 8032.
+var baseCache *Aff
+
 func Base() Aff {
+	if baseCache != nil {
+		return Aff{new(big.Int).Set(baseCache.X), new(big.Int).Set(baseCache.Y)}
+	}
+	b := computeBase()
+	baseCache = &b
+	return Aff{new(big.Int).Set(b.X), new(big.Int).Set(b.Y)}
+}
+
+func computeBase() Aff {
 	y := mul(big.NewInt(4), new(big.Int).ModInverse(big.NewInt(5), p))
 	x, ok := RecoverX(y, 0)
 	if !ok {
